@@ -35,9 +35,13 @@ type scenario struct {
 	Active bool
 	Equip  bool
 	T8     time.Duration
-	Frames []fspec
-	Cuts   []int // offsets into the stream, ascending, unique, in (0, len)
-	Gaps   []time.Duration
+	// BuiltT8: when non-zero the connection is built with this T8 and told the real one at run time
+	// (UpdateConfigOptions), before the stream; Trace: per-frame wire tracing is on
+	BuiltT8 time.Duration
+	Trace   bool
+	Frames  []fspec
+	Cuts    []int // offsets into the stream, ascending, unique, in (0, len)
+	Gaps    []time.Duration
 }
 
 type holderObs struct {
@@ -57,26 +61,27 @@ type delivery struct {
 }
 
 type harness struct {
-	w  *core.World
-	r  *rig.Rig
-	sc scenario
+	t8Updated, t8Live bool
+	w                 *core.World
+	r                 *rig.Rig
+	sc                scenario
 
-	stream    []byte
-	bounds    []int // cumulative end offsets of frames
-	arrive    []time.Duration
-	segEnd    []int
-	c         *refhsms.Conn
-	sent      bool
-	sentAt    time.Duration
-	deliv     []*delivery
-	fatalKind string // "", "t8", "length"
-	dropAt    time.Duration
+	stream     []byte
+	bounds     []int // cumulative end offsets of frames
+	arrive     []time.Duration
+	segEnd     []int
+	c          *refhsms.Conn
+	sent       bool
+	sentAt     time.Duration
+	deliv      []*delivery
+	fatalKind  string // "", "t8", "length"
+	dropAt     time.Duration
 	nProcessed int // frames processed before the fatal event (all if none)
-	barrier   uint32
-	memBefore uint64
-	memAfter  uint64
-	memTaken  bool
-	lenArrive time.Duration
+	barrier    uint32
+	memBefore  uint64
+	memAfter   uint64
+	memTaken   bool
+	lenArrive  time.Duration
 	obsPending int
 }
 
@@ -115,6 +120,10 @@ func genScenario(t *core.Tape) scenario {
 	sc.Active = t.Choose("scn", 2) == 1
 	sc.Equip = t.Choose("scn", 2) == 1
 	sc.T8 = []time.Duration{200 * time.Millisecond, 50 * time.Millisecond, time.Second, 5 * time.Second}[t.Choose("scn", 4)]
+	if t.Choose("scn", 3) == 0 {
+		sc.BuiltT8 = []time.Duration{20 * time.Second, 20 * time.Millisecond}[t.Choose("scn", 2)]
+	}
+	sc.Trace = t.Choose("scn", 3) == 0
 	n := 1 + t.Choose("scn", 10)
 	sess := uint16(0xFFFF)
 	for i := 0; i < n; i++ {
@@ -223,7 +232,11 @@ func Build(config string) core.BuildFunc {
 		if !h.decodeEntryPoints() {
 			return &core.Scenario{Desc: h.describe(), Horizon: time.Second, Done: func() bool { return true }}
 		}
-		h.r = rig.New(w, rig.Opts{Active: sc.Active, Equip: sc.Equip, T8: sc.T8, T3: 600 * time.Second, T6: 600 * time.Second, T7: 600 * time.Second,
+		t8 := sc.T8
+		if sc.BuiltT8 > 0 {
+			t8 = sc.BuiltT8
+		}
+		h.r = rig.New(w, rig.Opts{Active: sc.Active, Equip: sc.Equip, T8: t8, TraceTraffic: sc.Trace, T3: 600 * time.Second, T6: 600 * time.Second, T7: 600 * time.Second,
 			T5: 500 * time.Second, BackoffInit: 400 * time.Second, BackoffMult: 1, NoDataHandlers: true, CloseTimeout: 2 * time.Second})
 		r := h.r
 		r.P.AutoSelectRsp = 0
@@ -273,6 +286,29 @@ func Build(config string) core.BuildFunc {
 				h.c = r.P.Last()
 			}
 			if h.c != nil && r.Selected() && h.c.L.ToLib().InFlight() == 0 {
+				if sc.BuiltT8 > 0 && !h.t8Live {
+					// the real T8 is set on the live connection; one complete frame is then exchanged (the
+					// receive loop reads the timer when it starts waiting for a frame, so the frame it was
+					// already waiting for is still under the old value)
+					if !h.t8Updated {
+						h.t8Updated = true
+						if err := r.C.UpdateConfigOptions(hsms.WithT8(sc.T8)); err != nil {
+							w.Fail("HARNESS", "UpdateConfigOptions(WithT8): %v", err)
+
+							return
+						}
+						w.Probe("t8_updated_at_run_time")
+						h.c.SendFrame(refhsms.Header{Session: 0xFFFF, SType: refhsms.STLinktestReq, Sys: 0x7FFFFFF0}, nil)
+					}
+					for _, f := range h.c.Rx {
+						if f.H.SType == refhsms.STLinktestRsp && f.H.Sys == 0x7FFFFFF0 {
+							h.t8Live = true
+						}
+					}
+					if !h.t8Live {
+						return
+					}
+				}
 				h.transmit()
 			}
 		})
@@ -305,7 +341,7 @@ func (h *harness) describe() map[string]any {
 		gaps = append(gaps, g.String())
 	}
 
-	return map[string]any{"active": sc.Active, "equip": sc.Equip, "T8": sc.T8.String(), "frames": kinds, "cuts": sc.Cuts, "gaps": gaps}
+	return map[string]any{"active": sc.Active, "equip": sc.Equip, "T8": sc.T8.String(), "builtWithT8": sc.BuiltT8.String(), "traceTraffic": sc.Trace, "frames": kinds, "cuts": sc.Cuts, "gaps": gaps}
 }
 
 // wellFormed is the reference acceptance rule for a complete on-wire frame.
